@@ -72,6 +72,7 @@ func c06(c *Ctx) {
 	}
 	for _, ce := range [][2]int64{{0, 0}, {15, -1}, {-7, 3}, {999999999999999, -20}, {1, 30}, {100, -2}} {
 		nums = append(nums, nv{h.Dec(ce[0], ce[1]), ratCE(big.NewInt(ce[0]), ce[1])})
+		nums = append(nums, nv{h.PtrTo(h.Dec(ce[0], ce[1])), ratCE(big.NewInt(ce[0]), ce[1])}) // a decimal.Decimal reached through a pointer
 	}
 	for _, n := range nums {
 		want := n.val
